@@ -65,11 +65,15 @@ func c07Wire(r *Result, d *drv.Driver, seed int64) {
 			func(ctx *kmip.RequestContext, item *kmip.RequestBatchItem) (interface{}, error) {
 				return nil, reasonErr{"permission denied: 100% sure", kmip.RESULT_REASON_PERMISSION_DENIED}
 			},
-			func(i int) wireOutcome { return wireFail(kmip.RESULT_REASON_PERMISSION_DENIED, "permission denied: 100% sure") }},
+			func(i int) wireOutcome {
+				return wireFail(kmip.RESULT_REASON_PERMISSION_DENIED, "permission denied: 100% sure")
+			}},
 		{kmip.OPERATION_REVOKE, func(i int) interface{} {
 			return kmip.RevokeRequest{UniqueIdentifier: "r", RevocationReason: kmip.RevocationReason{RevocationReasonCode: 1}}
 		},
-			func(ctx *kmip.RequestContext, item *kmip.RequestBatchItem) (interface{}, error) { return nil, fmt.Errorf("plain failure") },
+			func(ctx *kmip.RequestContext, item *kmip.RequestBatchItem) (interface{}, error) {
+				return nil, fmt.Errorf("plain failure")
+			},
 			func(i int) wireOutcome { return wireFail(kmip.RESULT_REASON_GENERAL_FAILURE, "plain failure") }},
 		{kmip.OPERATION_LOCATE, func(i int) interface{} { return kmip.LocateRequest{} },
 			func(ctx *kmip.RequestContext, item *kmip.RequestBatchItem) (interface{}, error) { return nil, nil },
@@ -79,8 +83,12 @@ func c07Wire(r *Result, d *drv.Driver, seed int64) {
 		},
 			func(ctx *kmip.RequestContext, item *kmip.RequestBatchItem) (interface{}, error) { panic("boom") },
 			func(i int) wireOutcome { return wireFail(kmip.RESULT_REASON_GENERAL_FAILURE, "panic: boom") }},
-		{kmip.OPERATION_GET_ATTRIBUTES, func(i int) interface{} { return kmip.GetAttributesRequest{UniqueIdentifier: "g", AttributeNames: []string{"Name", "x-y"}} }, nil,
-			func(i int) wireOutcome { return wireFail(kmip.RESULT_REASON_OPERATION_NOT_SUPPORTED, "operation not supported") }},
+		{kmip.OPERATION_GET_ATTRIBUTES, func(i int) interface{} {
+			return kmip.GetAttributesRequest{UniqueIdentifier: "g", AttributeNames: []string{"Name", "x-y"}}
+		}, nil,
+			func(i int) wireOutcome {
+				return wireFail(kmip.RESULT_REASON_OPERATION_NOT_SUPPORTED, "operation not supported")
+			}},
 		{kmip.OPERATION_DISCOVER_VERSIONS, func(i int) interface{} { return kmip.DiscoverVersionsRequest{} }, nil,
 			func(i int) wireOutcome {
 				return wireOutcome{"ok " + render.Top(kmip.DiscoverVersionsResponse{ProtocolVersions: append([]kmip.ProtocolVersion(nil), kmip.DefaultSupportedVersions...)})}
